@@ -301,6 +301,11 @@ def match_case(draw):
                               comparisons=False, max_asserts=3, kinds=['monotone']))
     c['which'] = draw(st.sampled_from(['match_out', 'match_err']))
     c['opts'][c['which']] = draw(st.sampled_from(['ZZZ-not-there', 'no such text', 'sat ']))
+    # the same stream may be ignored for the comparison of candidates: the golden run must
+    # show the configured string all the same
+    ign = draw(st.sampled_from([None, None, 'ignore_output', 'ignore_out' if c['which'] == 'match_out' else 'ignore_err']))
+    if ign:
+        c['opts'][ign] = True
     c['kind'] = 'match'
     return c
 
